@@ -33,7 +33,7 @@ var InstrTargets = []instr.Target{
 	{File: "pkg/flowcontrols/flowcontrol/flowcontrol.go", All: true, Funcs: []string{"flowControl.Resize"}},
 	{File: "pkg/flowcontrols/remote/flowcontrol_wrapper.go", All: true, Funcs: []string{"localWrapper.Sync", "meterWrapper.TryAcquire", "meterWrapper.Release"}},
 	{File: "pkg/flowcontrols/limiter.go", All: true, Funcs: []string{"upstreamLimiter.Load", "upstreamLimiter.syncLocalFlowControls"}},
-	{File: "pkg/clusters/clusterinfo.go", Funcs: []string{"endpointPickStrategy.Pop"}},
+	{File: "pkg/clusters/clusterinfo.go", Funcs: []string{"endpointPickStrategy.Pop", "ClusterInfo.MatchAttributes", "ClusterInfo.Sync"}},
 	{File: "pkg/ratelimiter/limiter/ratelimter.go", Funcs: []string{"rateLimiter.UpdateRateLimitConditionStatus", "rateLimiter.UpstreamConditionHandler", "rateLimiter.calculateUpstreamCondition", "rateLimiter.deleteCondition"}},
 	// runtime select among two ready cases is a coin the tape cannot own: the
 	// prober's loops check the cancelled context first (a legal refinement of
@@ -195,9 +195,11 @@ func init() {
 		Title: "Routing: first matching dispatch policy, with the documented rule semantics",
 		Batches: []Batch{
 			{World: "gw", Profile: "c01-routing", Quick: 200, Thor: 12000, PerProc: 1, FaultFree: true},
+			{World: "ilv", Profile: "c01i-resync", Quick: 1500, Thor: 60000, PerProc: 250},
 		},
-		Rule: "each run = one cluster with 1-4 policies x 1-3 rules drawn from small per-field alphabets ('*', x, -x, several -x, mixed -x,y, globs, */sub, res/sub, service accounts with empty parts), every policy bound to its own single endpoint so that the contacted stub names the chosen policy; 10-40 real HTTP requests (verb x group x resource/sub x name x non-resource path x user/groups through TokenReview) interleaved with up to 6 reloads (new or permuted list); the oracle is a reference matcher written from docs/en/design.md and the property text, evaluated on the stored (admitted) list; distinct = distinct trace hash; non-trivial = at least one request matched and one matched no policy",
-		Real: gwReal, Stub: gwStub, Assume: append([]string{"the deciding power for the rule semantics comes from seeded generation of (policy list, request) pairs inside running gateways; what the simulation adds is history independence and 'never forwarded when unmatched' observed at the system boundary", "inverted non-resource URLs and inverted service accounts are documented as unsupported and are not generated"}, gwAssume...),
+		Rule:     "each run = one cluster with 1-4 policies x 1-3 rules drawn from small per-field alphabets ('*', x, -x, several -x, mixed -x,y, globs, */sub, res/sub, service accounts with empty parts), every policy bound to its own single endpoint so that the contacted stub names the chosen policy; 10-40 real HTTP requests (verb x group x resource/sub x name x non-resource path x user/groups through TokenReview) interleaved with up to 6 reloads (new or permuted list); the oracle is a reference matcher written from docs/en/design.md and the property text, evaluated on the stored (admitted) list; distinct = distinct trace hash; non-trivial = at least one request matched and one matched no policy. Profile c01i-resync (ilv world): 1-3 request threads call ClusterInfo.MatchAttributes while a controller thread replaces the policy list 1-4 times (2-4 versions; neighbours differ by a policy inserted at, removed from or moved to the front), interleaved at statement granularity; each request must be handled under the first match of a list that was current at some moment of its call, and nothing may panic; non-trivial = a call overlapped a Sync",
+		NeedInst: []string{"pkg/clusters/clusterinfo.go"},
+		Real:     gwReal, Stub: gwStub, Assume: append([]string{"the deciding power for the rule semantics comes from seeded generation of (policy list, request) pairs inside running gateways; what the simulation adds is history independence and 'never forwarded when unmatched' observed at the system boundary", "inverted non-resource URLs and inverted service accounts are documented as unsupported and are not generated"}, gwAssume...),
 	})
 	reg(&Check{
 		ID:    "C15",
@@ -241,8 +243,10 @@ func init() {
 		Title: "Admission validation is total, and what it accepts the data plane can apply",
 		Batches: []Batch{
 			{World: "gw", Profile: "c16-objects", Quick: 200, Thor: 12000, PerProc: 1, FaultFree: true},
+			{World: "rl", Profile: "c16l-nofault", Quick: 60, Thor: 3000, PerProc: 1, FaultFree: true},
+			{World: "rl", Profile: "c16l-apifaults", Quick: 140, Thor: 7000, PerProc: 1},
 		},
-		Rule: "each run = 4-14 UpstreamCluster objects obtained from a valid template by 1-3 drawn mutations (endpoint strings with bad escapes/no scheme/mixed schemes/userinfo/spaces, client and serving key material empty/truncated/mismatched, every subset of the five flow-control members with nil/negative/MaxInt32 numbers and strategies, dangling subset/schema references, feature-gate strings, names), submitted as creates or as updates of an existing cluster through the real admission plugin; every admitted object is then applied by the real pipeline (store, informer, controller goroutine, ClusterInfo with its transports and probes) and by the limiter's store; distinct = distinct trace hash; non-trivial = at least one object admitted and one rejected",
+		Rule: "each run = 4-14 UpstreamCluster objects obtained from a valid template by 1-3 drawn mutations (endpoint strings with bad escapes/no scheme/mixed schemes/userinfo/spaces, client and serving key material empty/truncated/mismatched, every subset of the five flow-control members with nil/negative/MaxInt32 numbers and strategies, dangling subset/schema references, feature-gate strings, names), submitted as creates or as updates of an existing cluster through the real admission plugin; every admitted object is then applied by the real pipeline (store, informer, controller goroutine, ClusterInfo with its transports and probes) and by the limiter's store; distinct = distinct trace hash; non-trivial = at least one object admitted and one rejected. Profiles c16l-* (rl world): a real leading limiter replica (store API-backed write-through / periodic / in-memory) is handed 8-40 steps of new versions of 1-3 upstreams whose flow-control schemas are drawn from all member combinations and boundary values and filtered by the real validator (only accepted objects are stored), reports of an instance, clock advances and, in the fault profile, outages of the condition API (every call of the replica fails with a 500 while it lasts); after the faults stop and four retry periods of the handler the limiter's state of every upstream must equal what the latest valid object means and a report must be answered; a panic anywhere ends the run as a crash",
 		Real: gwReal, Stub: gwStub, Assume: append([]string{"the deciding power is seeded object generation; the simulation adds that 'can be applied' is judged by the real pipeline including the controller's sync goroutine (panics there are recorded through apimachinery's panic handlers instead of killing the worker)", "the limiter server's UpstreamConditionHandler under leadership is exercised in the rl world; here its store-level consumers run"}, gwAssume...),
 	})
 	reg(&Check{
@@ -251,7 +255,7 @@ func init() {
 		Batches: []Batch{
 			{World: "rlstub", Profile: "c09-byzantine", Quick: 250, Thor: 15000, PerProc: 1},
 		},
-		Rule:   "each run = one gateway instance's real limiter stack (clientsets with heartbeat/readiness hysteresis, UpstreamLimiter, reconcile loop, global counter manager, wrappers, meters) for one cluster with 1-2 schemas (max-in-flight or token bucket x allocate or count strategy, local <= global), 20-120 steps of request bursts with drawn hold times, clock advances (50 ms - 6 s), server readiness flaps, leader unknown, partitions, against a scripted server that answers allocate/acquire with arbitrary int32 quotas and bursts (0, negative, > configured, MaxInt32), accept/reject, error strings and failures; then faults stop, the server answers an honest quota and the bounded-liveness clause is checked; distinct = distinct trace hash; non-trivial = requests were admitted through the server-controlled limiter and also refused or admitted locally. Max-in-flight schemas are reconfigured during the run (new local/global limits; after a lowering the previous limit is tolerated until the gateway has received one allocate answer) and the server may turn stale (repeats its previous answer per schema)",
+		Rule:   "each run = one gateway instance's real limiter stack (clientsets with heartbeat/readiness hysteresis, UpstreamLimiter, reconcile loop, global counter manager, wrappers, meters) for one cluster with 1-2 schemas (max-in-flight or token bucket x allocate or count strategy, local <= global), 20-120 steps of request bursts with drawn hold times, clock advances (50 ms - 6 s), server readiness flaps, leader unknown, partitions, against a scripted server that answers allocate/acquire with arbitrary int32 quotas and bursts (0, negative, > configured, MaxInt32), accept/reject, error strings and failures; then faults stop, the server answers an honest quota and the bounded-liveness clause is checked; distinct = distinct trace hash; non-trivial = requests were admitted through the server-controlled limiter and also refused or admitted locally. Max-in-flight schemas are reconfigured during the run (new local/global limits; after a lowering the previous limit is tolerated until the second allocate answer has come back, i.e. until a reconcile round that began after the change has completed) and the server may turn stale (repeats its previous answer per schema)",
 		Real:   []string{"pkg/ratelimiter/clientsets (server-info sync, heartbeats, readiness hysteresis, client cache) over the simulated network", "pkg/flowcontrols UpstreamLimiter.Load/Sync/ResetLimiter", "pkg/flowcontrols/remote (reconcile loop, FlowControlCache, remote/local wrappers, global counter manager, maxInflight/tokenBucket wrappers, meters)", "client-go REST client encoding/decoding"},
 		Stub:   []string{"the limiter server (byzantine script: the property quantifies over whatever the server answers)", "request threads (GetOrDefault/TryAcquire/hold/Release as the dispatcher does)", "network (simnet round tripper with partitions), fake clock"},
 		Assume: []string{"admissions are attributed to the limiter object that made them (remote vs local wrapper) through the public AllFlowControls() accessors", "token-bucket bound per limiter object allows one fresh burst per reconcile period (a new quota swaps in a new bucket)", "the server's coin is a pre-drawn sub-stream of the tape consumed in RPC arrival order", "a clean batch is evidence, not proof"},
